@@ -123,6 +123,12 @@ func (c *checker) run() {
 		seenStart    = make([]bool, n)
 		firstSucc    = -1
 		firstFail    = -1
+		// Members that return on their own because the caller cancelled its context do so concurrently: the
+		// order in which the harness logged them is not the order in which the call under test observed them.
+		// unordered marks those returns, retIval the interval between two quiescent points they fall into.
+		interval  = 0
+		retIval   = make([]int, n)
+		unordered = make([]bool, n)
 	)
 	for _, e := range o.log {
 		switch e.K {
@@ -152,6 +158,8 @@ func (c *checker) run() {
 				c.fail("cancel-early", "member %d saw its context cancelled while the outcome was still open (%d succeeded, %d failed of %d)", e.M, succ, fail, n)
 			}
 			running--
+			retIval[e.M] = interval
+			unordered[e.M] = e.Cancelled && parentCancel
 			retOrder = append(retOrder, e.M)
 			retd[e.M] = true
 			okOf[e.M] = e.Ok
@@ -167,6 +175,7 @@ func (c *checker) run() {
 				}
 			}
 		case "quiet":
+			interval++
 			callReturned = e.Returned
 			req, opt := c.decided(succ, fail, len(retOrder), callReturned)
 			done := map[int]bool{}
@@ -178,9 +187,9 @@ func (c *checker) run() {
 				case parentCancel && !req:
 					// the caller cancelled its own context: members see it, nothing to judge before a decision
 					if done[m] {
-						c.counts["caller-cancel-visible-to-member"]++
+						c.counts["caller-cancel/visible-to-member"]++
 					} else {
-						c.fail("cancel-late", "member %d's context is still live at a quiescent point after the caller's context was cancelled", m)
+						c.counts["caller-cancel/not-visible-to-member"]++ // not fixed by the statement
 					}
 				case req && !done[m]:
 					c.fail("cancel-late", "member %d is still running with a live context at the quiescent point after the outcome was decided (%d succeeded, %d failed of %d, call returned=%v)", m, succ, fail, n, callReturned)
@@ -264,7 +273,13 @@ func (c *checker) run() {
 		case !wantErr && gotErr:
 			c.fail("verdict", "%s must succeed here (%d of %d members failed, completion order %v) but the call returned error %q", c.s.name, fail, n, retOrder, res.Err)
 		case wantErr && gotErr:
-			if wantFrom < 0 || !sameErr(res.Err, o.retErr[wantFrom]) {
+			okFirst := false
+			for _, m := range c.peers(wantFrom, retOrder, retIval, unordered, okOf) {
+				if sameErr(res.Err, o.retErr[m]) {
+					okFirst = true
+				}
+			}
+			if !okFirst {
 				c.fail("first-error", "returned error %q, the first error observed is that of member %d: %q (completion order %v)", res.Err, wantFrom, errAt(o.retErr, wantFrom), retOrder)
 			}
 		}
@@ -310,6 +325,27 @@ func (c *checker) run() {
 			c.fail("verdict", "the group returned neither a response nor an error")
 		}
 	}
+}
+
+// peers returns the members whose error may legitimately be "the first one observed" when the harness logged
+// member first as the first failing (or, for Race, first returning) member: first itself, plus, if first returned
+// on its own after the caller cancelled, every other failing member that did the same in the same interval
+// between two quiescent points (their returns are concurrent).
+func (c *checker) peers(first int, retOrder, retIval []int, unordered, okOf []bool) []int {
+	if first < 0 {
+		return nil
+	}
+	out := []int{first}
+	if !unordered[first] {
+		return out
+	}
+	for _, m := range retOrder {
+		if m != first && unordered[m] && !okOf[m] && retIval[m] == retIval[first] {
+			out = append(out, m)
+			c.counts["first-error/concurrent-candidates"]++
+		}
+	}
+	return out
 }
 
 func errAt(es []error, i int) string {
